@@ -831,6 +831,23 @@ def emit_fn(d, unit, report, canaries):
             if n != 1:
                 raise ExtractError('lost anchor: %s ascribe %s' % (fname, var))
             counts['R12'] = counts.get('R12', 0) + 1
+    for name, argstr, text in d.sections:
+        if name == 'opaque':
+            # R17: a loop the verifier cannot ingest is replaced by the given call of an assumed stub; the dropped lines are reported
+            rx, k, _ = parse_anchor(argstr)
+            blines = body.split('\n')
+            i = find_line(blines, rx, k, fname + ' opaque')
+            rest = '\n'.join(blines[i:])
+            pos = _loop_open_brace(rest)
+            if pos is None:
+                raise ExtractError('lost anchor: %s opaque ~%s is not a loop header' % (fname, rx))
+            close = _match_brace(rest, pos)
+            dropped = rest[:close + 1]
+            indent = re.match(r'\s*', blines[i]).group(0)
+            body = '\n'.join(blines[:i]) + '\n' + indent + '// [R17] opaque region (%d lines not verified)\n' % (dropped.count('\n') + 1) \
+                + '\n'.join(indent + t.strip() for t in text if t.strip()) + rest[close + 1:]
+            counts['R17'] = counts.get('R17', 0) + 1
+            info.setdefault('opaque_regions', []).append(dropped)
     n_builtin = count_builtin(body)
     body = weave_body(body, d, fname)
     entry['rules'] = counts
